@@ -240,6 +240,7 @@ def _impl_worker(args):
                 out.append(mod.observe(case))
             finally:
                 signal.alarm(0)
+            world.flush_deferred()
         except BaseException as exc:  # noqa: B036 - harness failure, reported as such
             import traceback
 
